@@ -14,7 +14,7 @@ func init() {
 	register("C17", checkC17)
 	describe("C17", Meta{
 		Technique: "goroutine-lifecycle analysis on go/ssa: exit reachability of every launched body, join/stop issued on every returning path of the launcher, constructor/release pairing over the call graph, exit-token counting against launched receivers",
-		Claim:     "Decides the structural leak clauses of C17 for every go statement in the simulation, tuning and requirement-engine packages: the goroutine body has a reachable return (W1), the launcher joins/stops it on every returning path (W2), an owner type that starts a goroutine in its constructor has its release method called wherever the owner does not escape (W3), exit tokens match the launched receivers, and a goroutine waiting on a channel only its launcher can release is released on every returning path of the launcher (UNBLOCK). RETAIN: nothing reachable from the simulation entry points inserts into a package-level map/sync.Map under a pointer key or appends to a package-level slice (state that grows with the number of simulations). A necessary condition for 'no workers left behind'; memory retained otherwise and exits that exist but are never taken for dynamic reasons are not decided.",
+		Claim:     "Decides the structural leak clauses of C17 for every go statement in the simulation, tuning and requirement-engine packages: the goroutine body has a reachable return (W1), the launcher joins/stops it on every returning path (W2), an owner type that starts a goroutine in its constructor has its release method called wherever the owner does not escape (W3), exit tokens match the launched receivers, and a goroutine waiting on a channel only its launcher can release is released on every returning path of the launcher (UNBLOCK). RETAIN: nothing reachable from the simulation entry points inserts into a package-level map/sync.Map under a pointer key or appends to a package-level slice (state that grows with the number of simulations). A necessary condition for 'no workers left behind'; memory retained otherwise and exits that exist but are never taken for dynamic reasons are not decided. (ABANDON) a goroutine's blocking send/receive on a channel field has a counterpart that cannot walk away (is not in a select with an alternative).",
 		Note:      "Scope is by package (pkg/bondmachine, pkg/procbuilder, pkg/bmreqs, pkg/basm, pkg/simbox, cmd/simfinetune, cmd/bondmachine); network daemons (etherbond, udpbond, brvga, bmapi templates) are long-lived by design and out of scope.",
 		DesignRef: "DESIGN.md §2 C17",
 	})
